@@ -23,6 +23,15 @@ Reference-model monitor with three families of cases.
            and the canonical (anti)commutation relations between sites (commutators between the distinguishable
            species of SpinfulFermions('U1xU1'), by that class's docstring).
 
+Argument conventions swept in every family (oracle unchanged): the containers the user controls are written in every order
+(swap= pairs shuffled, (j, i) for (i, j), a crossing listed twice = identity; swap_gate groups / pairs / legs inside a group
+re-ordered, negative positions counted from the logical rank, the same pair twice in one call, axes and charges permuted
+together); every call is also issued with its defaults (no order=, conjs omitted, swap omitted / [] / () = no signs at all);
+falsy inputs (empty axes, rank-0 tensors and scalar network values, tensors without blocks, dimension-one odd legs, legs with
+even charges only, total charge exactly zero); fused operands (hard / meta / two-level for swap_gate; hard- or meta-fused
+contracted and open legs inside ncon networks, constituents mixing odd and even charges, also on lazily transposed operands).
+Keys added: reordered-arguments:swap_gate:..., ...:negative-axes, value/exception:ncon-no-swap:<variant>.
+
 Violation keys of family (b) are mechanism classes.  Every requested order is first classified by an independent GF(2)
 analysis of the network (classify_order): 'resolvable' (a schedule of single-tensor swap gates exists for this order),
 'inefficient' (a trace after a tensordot: the documented rejection), 'unresolvable:multi-bond' / 'unresolvable:traced-leg'
@@ -68,7 +77,9 @@ RULE = ("case = swap: (symmetry x fermionic flag [True / every per-component tup
         "contracted-vs-third-party biased) x every permutation of the contracted labels;  fkron: operator family x tuple of 2-3 "
         "operators x all site permutations x all application orders, and the CAR table of the family on 2-3 sites.  "
         "distinct = hash of (kind, configuration, leg sectors, stored block keys, lazy/fusion state, call form / network and swaps / "
-        "operator names); non-trivial = a stored block exists and the result was compared element-wise (swap), the reference is "
+        "operator names).  Every case also varies how the call is written (container order, (j,i) pairs, doubled crossings, negative "
+        "axes, lists/tuples, defaults omitted, empty swap/axes) and includes falsy structures (rank 0, no blocks, D=1 odd legs, even-only "
+        "legs, n=0) and fused operands (swap_gate: hard/meta/two-level; ncon: hard- or meta-fused bonds and open legs); non-trivial = a stored block exists and the result was compared element-wise (swap), the reference is "
         "non-zero and at least one order was accepted (ncon), the reference matrix is non-zero (fkron)")
 ASSUMPTIONS = ["vmon.groups parity arithmetic on Python ints is the truth for signs; harness dense images are built from the blocks "
                "passed to set_block (no to_numpy on operands)",
@@ -142,6 +153,23 @@ def floors(tier):
          "ncon_cmd:jump_step1": 50 * k, "ncon_cmd:jump_step2": 50 * k, "ncon_via:einsum": 100 * k, "ncon_via:relabel": 100 * k,
          "ncon_swap_open_open": 10 * k, "ncon_swap_contracted_thirdparty": 60 * k,
          "ncon_trace_shared_index_networks": 25 * k, "ncon_trace_shared_index_decided": 10 * k, "ncon_repeated_swap_networks": 8 * k,
+         # (1) container order of user-controlled arguments
+         "swap_reordered_argument_checked": 250 * k, "swap_form:doubled": 20 * k, "swap_negative_axes": 100 * k,
+         "ncon_swap_arg:shuffled": 2000 * k, "ncon_swap_arg:flipped": 2000 * k, "ncon_swap_arg:doubled": 800 * k,
+         # (2) defaults / omitted arguments, no sign on bosonic components
+         "ncon_default_calls": 500 * k, "ncon_default:all-defaults": 60 * k, "ncon_default:swap-omitted": 80 * k,
+         "ncon_default:einsum-swap-omitted": 80 * k, "ncon_conjs_omitted_calls": 150 * k,
+         "swap_bosonic_component_discriminating": 50 * k, "swap_partial_tuple_discriminating": 20 * k, "ncon_partial_tuple_discriminating": 6 * k,
+         # (3) falsy values
+         "swap_form:empty": 10 * k, "swap_rank0_tensor": 3 * k, "swap_no_blocks_tensor": 15 * k, "swap_dim1_odd_leg": 40 * k,
+         "swap_zero_charge_tensor": 80 * k, "swap_flavour:all-even": 12 * k,
+         "ncon_default:swap-empty-list": 80 * k, "ncon_default:swap-empty-tuple": 80 * k, "ncon_scalar_results": 8 * k,
+         "ncon_scalar_results_sign_sensitive": 2 * k, "ncon_empty_operand_networks": 25 * k, "ncon_dim1_odd_crossed_leg_networks": 25 * k,
+         "ncon_even_only_crossed_leg_networks": 25 * k, "ncon_cmd:parity_sign_zero_charge": 100 * k,
+         # (4) fused operands
+         "swap_fused_mixed_parity_constituents": 80 * k, "swap_negative_axes_meta": 30 * k, "swap_negative_axes_meta_lazy": 10 * k,
+         "ncon_fused_networks": 30 * k, "ncon_fused:hard": 12 * k, "ncon_fused:meta": 12 * k, "ncon_fused_crossed_leg_decided": 6 * k,
+         "ncon_fused_open_leg_networks": 15 * k, "ncon_fused_mixed_parity_constituents": 25 * k, "ncon_fused_on_lazy_operand": 15 * k,
          "reach:resolve_step1_jump": 10 * k, "reach:resolve_step2_jump": 10 * k, "reach:parity_sign_swap_gate": 10 * k,
          "fkron_calls": 1500 * k, "fkron_sign_sensitive": 200 * k, "fkron_order_sensitive_cases": 30 * k,
          "fkron_fermionic_cases": 60 * k, "fkron_bosonic_cases": 15 * k, "fkron_random_cases": 10 * k,
@@ -431,7 +459,7 @@ def swap_case(ctx, idx, k):
     if diag:
         a = D.gen_diag(rng, nprng, sym, leg=D.gen_leg(rng, sym, nsec=(2, 3)), density=rng.choice((1.0, 0.7)), fermionic=ferm)
     else:
-        rank = rng.randint(3, 5) if fuse != "none" else rng.choice((1, 2, 2, 3, 3, 4, 4, 5))
+        rank = rng.randint(3, 5) if fuse != "none" else (0 if rng.random() < 0.03 else rng.choice((1, 2, 2, 3, 3, 4, 4, 5)))
         if fuse == "two-level":
             rank = rng.randint(4, 5)
         a = gen_parity_tensor(rng, nprng, sym, ferm, rank, want, dmax=2 if rank >= 4 else 3, flavour=flavour)
@@ -464,7 +492,7 @@ def swap_case(ctx, idx, k):
         forms += ["pair", "pair", "pair", "multi", "multi", "doubled"]
     if nl >= 3:
         forms += ["groups", "groups", "groups", "groups", "repeat", "repeat", "multi", "multi"]
-    form = rng.choice(forms) if rng.random() > 0.04 else "empty"
+    form = rng.choice(forms) if (nl > 0 and rng.random() > 0.04) else "empty"
     box = D.charge_box(sym)
     kwargs, pairs = {}, []
     if form == "pair":
@@ -639,6 +667,8 @@ def swap_case(ctx, idx, k):
             ctx.count("swap_negative_axes_meta")
             if state == "lazy":
                 ctx.count("swap_negative_axes_meta_lazy")
+    if a.rank == 0:
+        ctx.count("swap_rank0_tensor")
     if not len(a.blocks):
         ctx.count("swap_no_blocks_tensor")
     if any(l.dim == 1 and odd(sym, l.ts[0], True) for l in a.legs):
@@ -668,7 +698,11 @@ def swap_case(ctx, idx, k):
 # ================================================================== (b) ncon / einsum with swap=
 
 class Net:
-    pass
+    comp = {}            # parent edge id -> companion edge id (the two are fused into ONE leg of the yastn operands)
+    groups = None        # per tensor: fuse_legs axes specification, or None
+    fuse_mode = None
+    shared_mode = False
+    closed_mode = False
 
 
 def gen_network(rng, nprng, sym, ferm, tier):
@@ -684,6 +718,7 @@ def gen_network(rng, nprng, sym, ferm, tier):
     t0 = rng.randrange(nt) if shared else None
     if shared:
         bonds.append((t0, t0))
+    closed = (not shared) and rng.random() < 0.1          # no open legs: rank-0 (scalar) result
     for i in range(1, nt):
         if rng.random() < 0.93:
             bonds.append((rng.randrange(i), i))
@@ -716,6 +751,8 @@ def gen_network(rng, nprng, sym, ferm, tier):
                 k = min(k, 5 - deg[t])
             else:
                 k = max(k, 1)                                              # every other tensor offers a leg for x to cross
+        if closed and deg[t]:
+            k = 0
         nopen.append(k)
         tot += k
     # slots
@@ -812,6 +849,25 @@ def gen_network(rng, nprng, sym, ferm, tier):
     if swaps and rng.random() < 0.06:
         swaps.append(swaps[0])          # the same swap twice cancels
         kinds.append("duplicate")
+    # fused edges: a companion edge with the same endpoints is inserted right after its parent on every endpoint; the yastn
+    # operands get the two legs fused (hard or meta) into ONE leg carrying the parent's label, the oracle keeps both indices
+    # (parity of the fused leg = sum of the parities of the constituents, which mix odd and even charges)
+    net.comp = {}
+    if rng.random() < 0.3:
+        cand = [e for e, ed in enumerate(edges) if len(set(ed["tens"])) == len(ed["tens"]) and not (shared and t0 in ed["tens"])]
+        rng.shuffle(cand)
+        in_swaps = {e for pr in swaps for e in pr}
+        cand.sort(key=lambda e: e not in in_swaps)          # prefer edges that are crossed
+        for e in cand[:rng.choice((1, 1, 2))]:
+            if any(len(slots[t]) > 4 for t in edges[e]["tens"]):
+                continue
+            c = len(edges)
+            edges.append({"kind": "companion", "tens": edges[e]["tens"], "parent": e})
+            for which, t in enumerate(edges[e]["tens"]):
+                slots[t].insert(slots[t].index((e, which)) + 1, (c, which))
+            net.comp[e] = c
+        if net.comp:
+            net.fuse_mode = rng.choice(("hard", "meta"))
     # legs: swapped edges get (when the symmetry allows) a sector that is odd in a fermionic component, used as witness
     swapped = {e for pr in swaps for e in pr}
     mask = G.fmask(sym, ferm) if any(G.fmask(sym, ferm)) else G.fmask(sym, True)
@@ -824,12 +880,19 @@ def gen_network(rng, nprng, sym, ferm, tier):
                 if any(odd(sym, t, mask) for t in L.ts):
                     break
                 L = D.gen_leg(rng, sym, nsec=(2, 3), dmax=dm)
+        u = rng.random()
+        if u < 0.08:                 # a dimension-one leg holding a single odd charge
+            L = D.HLeg(sym, rng.choice((-1, 1)), [(G.canon(sym, rng.choice(odd_charges(sym, mask))), 1)])
+        elif u < 0.18 and e in swapped:      # a crossed leg that holds only even charges: this crossing never gives a sign
+            L = D.gen_leg(rng, sym, nsec=(1, 3), dmax=dm, box=even_box(sym))
         ed["leg"] = L
         oddts = [t for t in L.ts if odd(sym, t, mask)]
         ed["witness"] = rng.choice(oddts) if (e in swapped and oddts and rng.random() < 0.8) else rng.choice(L.ts)
     # tensors
     dt = rng.choice(("float64", "float64", "complex128"))
-    net.hts, net.inds, net.slot_edges = [], [], []
+    net.hts, net.inds, net.slot_edges, net.groups = [], [], [], []
+    empty_t = rng.randrange(nt) if rng.random() < 0.04 else None
+    companions = set(net.comp.values())
     for t in range(nt):
         legs, wit = [], []
         for e, which in slots[t]:
@@ -839,14 +902,17 @@ def gen_network(rng, nprng, sym, ferm, tier):
         n = G.add(sym, wit, tuple(l.s for l in legs)) if legs else G.zero(sym)
         if rng.random() < 0.06:
             n = D.gen_n(rng, sym, legs, "any")
-        net.hts.append(D.gen_tensor(rng, nprng, sym, legs=legs, n=n, dtype=dt, density=rng.choice((1.0, 1.0, 1.0, 0.7)), fermionic=ferm))
-        net.inds.append(tuple(label[e] for e, _ in slots[t]))
+        h = D.gen_tensor(rng, nprng, sym, legs=legs, n=n, dtype=dt, density=rng.choice((1.0, 1.0, 1.0, 0.7)), fermionic=ferm)
+        net.hts.append(h._new(blocks={}) if t == empty_t else h)
+        net.inds.append(tuple(label[e] for e, _ in slots[t] if e not in companions))
         net.slot_edges.append([e for e, _ in slots[t]])
+        spec = [(p_, p_ + 1) if e in net.comp else p_ for p_, (e, _) in enumerate(slots[t]) if e not in companions]
+        net.groups.append(tuple(spec) if any(isinstance(g, tuple) for g in spec) else None)
     net.swap_edges, net.swap_kinds = swaps, kinds
-    net.shared_mode = shared
+    net.shared_mode, net.closed_mode = shared, closed
     net.swap = [(label[a], label[b]) for a, b in swaps]
-    net.conjs = [rng.randint(0, 1) for _ in range(nt)]
-    net.out_legs = [edges[e]["leg"] for e in open_ids]
+    net.conjs = [0] * nt if rng.random() < 0.3 else [rng.randint(0, 1) for _ in range(nt)]
+    net.out_legs = [edges[x]["leg"] for e in open_ids for x in [e] + ([net.comp[e]] if e in net.comp else [])]
     return net
 
 
@@ -874,17 +940,26 @@ def trace_shared_index(inds, swap):
 
 
 def net_oracle(net, sym, ferm, with_signs=True):
-    """np.einsum of the dense operands with one +-1 matrix per requested swap."""
+    """np.einsum of the dense operands with one +-1 array per requested swap (over the indices of the two swapped legs; a
+    fused leg = parent + companion index, its charge the sum of the two)."""
     al = string.ascii_letters
     subs = ["".join(al[e] for e in se) for se in net.slot_edges]
     ops = [h.dense() for h in net.hts]
+
+    def grp(e):
+        return [e] + ([net.comp[e]] if e in net.comp else [])
     if with_signs:
         for a, b in net.swap_edges:
-            ca, cb = index_charges(net.edges[a]["leg"]), index_charges(net.edges[b]["leg"])
-            S = np.array([[G.swap_sign(sym, x, y, ferm) for y in cb] for x in ca], dtype=np.float64).reshape(len(ca), len(cb))
-            subs.append(al[a] + al[b])
+            ga, gb = grp(a), grp(b)
+            ch = [index_charges(net.edges[x]["leg"]) for x in ga + gb]
+            S = np.ones(tuple(len(c) for c in ch))
+            for ix in np.ndindex(*S.shape):
+                ta = gsum([ch[k][ix[k]] for k in range(len(ga))], range(len(ga)))
+                tb = gsum([ch[len(ga) + k][ix[len(ga) + k]] for k in range(len(gb))], range(len(gb)))
+                S[ix] = G.swap_sign(sym, ta, tb, ferm)
+            subs.append("".join(al[x] for x in ga + gb))
             ops.append(S)
-    out = "".join(al[e] for e in net.open_ids)
+    out = "".join(al[x] for e in net.open_ids for x in grp(e))
     return np.einsum(",".join(subs) + "->" + out, *ops, optimize=True)
 
 
@@ -1007,7 +1082,8 @@ def classify_order(inds, swap, order):
 def analyse_commands(cmds, net, sym, ferm):
     """Counters from the command list _meta_ncon returned for the executed call."""
     n = {i: h.n for i, h in enumerate(net.hts)}
-    out = {"parity_sign": 0, "parity_sign_odd": 0, "jump_step1": 0, "jump_step2": 0, "swap_gate": 0, "trace": 0}
+    out = {"parity_sign": 0, "parity_sign_odd": 0, "parity_sign_zero_charge": 0, "parity_sign_even_nonzero_charge": 0,
+           "jump_step1": 0, "jump_step2": 0, "swap_gate": 0, "trace": 0}
     pending = []
     for c in cmds:
         if c[0] == "tensordot":
@@ -1027,6 +1103,8 @@ def analyse_commands(cmds, net, sym, ferm):
             pending.append(c[1])
             if c[1] in n and odd(sym, n[c[1]], ferm):
                 out["parity_sign_odd"] += 1
+            elif c[1] in n:
+                out["parity_sign_zero_charge" if not any(n[c[1]]) else "parity_sign_even_nonzero_charge"] += 1
         elif c[0] == "swap_gate":
             out["swap_gate"] += 1
             n[c[1]] = n[c[2]]
@@ -1038,9 +1116,14 @@ def analyse_commands(cmds, net, sym, ferm):
 def compare_net(ctx, key, what, r, expected, net, nexp, tol, witness):
     import yastn
     legs = net.out_legs
-    if not isinstance(r, yastn.Tensor) or r.ndim != len(legs):
-        ctx.violation("result-rank:" + key, f"{what}: result is not a rank-{len(legs)} tensor", witness)
+    if not isinstance(r, yastn.Tensor) or r.ndim != len(net.open_ids):
+        ctx.violation("result-rank:" + key, f"{what}: result is not a rank-{len(net.open_ids)} tensor", witness)
         return False
+    if len(legs) != len(net.open_ids):         # fused open legs: compare after unfusing
+        r = unfuse_all(r)
+        if r.ndim != len(legs):
+            ctx.violation("result-rank:" + key, f"{what}: unfused result is not a rank-{len(legs)} tensor", witness)
+            return False
     if tuple(r.n) != tuple(nexp):
         ctx.violation("result-charge:" + key, f"{what}: total charge {r.n} expected {tuple(nexp)}", witness)
         return False
@@ -1068,6 +1151,7 @@ def ncon_case(ctx, idx, k):
     import yastn
     from yastn.tensor import _einsum
     rng, nprng = ctx.rng(idx), ctx.nprng(idx)
+    vr = ctx.rng(idx, "call-variants")          # how the arguments of each call are written down
     sym, ferm = NCON_CONFIGS[k % len(NCON_CONFIGS)]
     fermionic = any(G.fmask(sym, ferm))
     cfg = D.make_cfg(sym, ferm, tensordot_policy=rng.choice(POLICIES))
@@ -1085,50 +1169,87 @@ def ncon_case(ctx, idx, k):
     nexp = G.add(sym, [h.n for h in net.hts])
     users = [h.conj() if c else h for h, c in zip(net.hts, net.conjs)]
     states, ys = [], []
-    for u in users:
+    for t, u in enumerate(users):
         y, st = c01.realize(u, rng, cfg, rng.choice(STATES))
+        if net.groups[t] is not None:           # fused legs (hard / meta) on the operand, possibly on top of a lazy transpose
+            y = y.fuse_legs(axes=net.groups[t], mode=net.fuse_mode)
         ys.append(y)
         states.append(st)
+    noconj = not any(net.conjs)
     m = len(net.contracted)
     perms = list(itertools.permutations(net.contracted))
     sampled = len(perms) > 120
     if sampled:
         perms = rng.sample(perms, 120)
     al = string.ascii_letters
+    all_labels = list(net.contracted) + [-o for o in range(len(net.open_ids))]
     base_w = {"sym": sym, "fermionic": ferm, "inds": net.inds, "conjs": net.conjs, "swap": net.swap, "swap_kinds": net.swap_kinds,
-              "lazy": states, "tensors": [u.desc(values=sum(x.size() for x in users) <= 96) for u in users]}
+              "lazy": states, "fused": {"mode": net.fuse_mode, "groups": net.groups} if net.comp else None,
+              "tensors": [u.desc(values=sum(x.size() for x in users) <= 96) for u in users]}
+
+    def issue(via, order, sv, with_conjs=True, with_swap=True):
+        """One call; returns (result, key of the command list that _meta_ncon was asked for)."""
+        kw = {}
+        if with_conjs:
+            kw["conjs"] = net.conjs if vr.random() < 0.5 else tuple(net.conjs)
+        if via == "order":
+            if with_swap:
+                kw["swap"] = [tuple(x) if vr.random() < 0.5 else list(x) for x in sv] if vr.random() < 0.7 else tuple(tuple(x) for x in sv)
+            if order is not None:
+                kw["order"] = list(order) if vr.random() < 0.5 else tuple(order)
+            r = yastn.ncon(ys, net.inds, **kw)
+            return r, (tuple(tuple(x) for x in net.inds), None if order is None else tuple(order), tuple(tuple(x) for x in sv) if with_swap else ())
+        ren = {o: j for j, o in enumerate(order, start=1)}
+        inds = [tuple(ren.get(x, x) if x > 0 else x for x in ind) for ind in net.inds]
+        swp = [tuple(ren.get(x, x) if x > 0 else x for x in x2) for x2 in sv]
+        if via == "relabel":                 # default order = ascending labels
+            if with_swap:
+                kw["swap"] = swp
+            r = yastn.ncon(ys, inds, **kw)
+        else:
+            let = {lab: al[26 + j] for j, lab in enumerate(net.contracted)}      # contracted: upper case A, B, ...
+            let.update({-o: al[o] for o in range(len(net.open_ids))})           # open: lower case a, b, ...
+            sub = ",".join(("*" if c else "") + "".join(let[x] for x in ind) for c, ind in zip(net.conjs, net.inds))
+            sub += "->" + "".join(al[o] for o in range(len(net.open_ids)))
+            kw = {"order": "".join(let[x] for x in order)}
+            if with_swap:
+                kw["swap"] = ",".join(let[a_] + let[b_] for a_, b_ in sv)
+            r = yastn.einsum(sub, *ys, **kw)       # einsum numbers the contracted letters by their position in order
+        return r, (tuple(inds), None, tuple(swp) if with_swap else ())
+
     accepted = 0
-    agg = {"parity_sign": 0, "parity_sign_odd": 0, "jump_step1": 0, "jump_step2": 0, "swap_gate": 0, "trace": 0}
+    first_accepted = None
+    agg = {"parity_sign": 0, "parity_sign_odd": 0, "parity_sign_zero_charge": 0, "parity_sign_even_nonzero_charge": 0,
+           "jump_step1": 0, "jump_step2": 0, "swap_gate": 0, "trace": 0}
     resolve_orders = 0
     reach().start_case()
     for pi, perm in enumerate(perms):
         via = ("order", "order", "einsum", "order", "relabel", "order")[(pi + idx) % 6]
         order = list(perm)
-        events, hard = classify_order(net.inds, net.swap, order)
+        # the same set of crossings written differently: pairs in another order, (j, i) for (i, j), and a crossing that is
+        # listed twice (= identity) added at random places
+        sv = [tuple(x) for x in net.swap]
+        variant = []
+        if vr.random() < 0.6:
+            vr.shuffle(sv)
+            variant.append("shuffled")
+        if vr.random() < 0.6:
+            sv = [x[::-1] if vr.random() < 0.5 else x for x in sv]
+            variant.append("flipped")
+        if len(all_labels) >= 2 and vr.random() < 0.25:
+            x1, x2 = vr.sample(all_labels, 2)
+            for pr in ((x1, x2), (x2, x1) if vr.random() < 0.5 else (x1, x2)):
+                sv.insert(vr.randrange(len(sv) + 1), pr)
+            variant.append("doubled")
+        for v_ in variant:
+            ctx.count("ncon_swap_arg:" + v_)
+        events, hard = classify_order(net.inds, sv, order)
         unres = next((e for e in events if e.startswith("unresolvable")), None)
         oclass = unres or ("inefficient" if events else "resolvable")
         ctx.count("ncon_order_class:" + oclass)
-        swap_arg = [tuple(s) if (pi + i) % 2 else list(s) for i, s in enumerate(net.swap)]
-        probe = None
+        omit_conjs = noconj and via != "einsum" and vr.random() < 0.5
         try:
-            if via == "order":
-                r = yastn.ncon(ys, net.inds, conjs=net.conjs, order=order, swap=swap_arg)
-                probe = (tuple(tuple(x) for x in net.inds), tuple(order), tuple(tuple(s) for s in net.swap))
-            elif via == "relabel":
-                ren = {o: j for j, o in enumerate(order, start=1)}
-                inds = [tuple(ren.get(x, x) if x > 0 else x for x in ind) for ind in net.inds]
-                swp = [tuple(ren.get(x, x) if x > 0 else x for x in s) for s in net.swap]
-                r = yastn.ncon(ys, inds, conjs=net.conjs, swap=swp)
-                probe = (tuple(inds), None, tuple(swp))
-            else:
-                let = {lab: al[26 + j] for j, lab in enumerate(net.contracted)}      # contracted: upper case A, B, ...
-                let.update({-o: al[o] for o in range(len(net.open_ids))})           # open: lower case a, b, ...
-                sub = ",".join(("*" if c else "") + "".join(let[x] for x in ind) for c, ind in zip(net.conjs, net.inds))
-                sub += "->" + "".join(al[o] for o in range(len(net.open_ids)))
-                r = yastn.einsum(sub, *ys, order="".join(let[x] for x in order), swap=",".join(let[a] + let[b] for a, b in net.swap))
-                ren = {o: j for j, o in enumerate(order, start=1)}      # einsum numbers the contracted letters by their position in order
-                probe = (tuple(tuple(ren.get(x, x) if x > 0 else x for x in ind) for ind in net.inds), None,
-                         tuple(tuple(ren.get(x, x) if x > 0 else x for x in sw) for sw in net.swap))
+            r, probe = issue(via, order, sv, with_conjs=not omit_conjs)
         except Exception as e:
             if yerr(e) and "inefficient order" in str(e):
                 # the one documented rejection of a well-formed network (traces after a tensordot / interleaved bonds)
@@ -1140,7 +1261,7 @@ def ncon_case(ctx, idx, k):
                 # no pairwise schedule in this order can realise the swap: a YastnError is a legitimate rejection
                 ctx.count("ncon_orders_rejected_unresolvable")
                 continue
-            w = dict(base_w, order=order, via=via, order_class=oclass, error=repr(e)[:300])
+            w = dict(base_w, order=order, via=via, swap_as_passed=sv, order_class=oclass, error=repr(e)[:300])
             if unres:
                 key = "exception:ncon-swap:" + unres.replace("unresolvable:", "unresolvable-order:")
             elif oclass == "inefficient":       # an order the library rejects anyway, but not with the documented error
@@ -1150,18 +1271,21 @@ def ncon_case(ctx, idx, k):
             else:
                 key = "exception:ncon-swap:resolvable-order:" + type(e).__name__
             ctx.count("ncon_orders_raised:" + oclass)
-            ctx.violation(key, f"{via}(inds={net.inds}, order={order}, swap={net.swap}) raised {type(e).__name__}: {e} "
+            ctx.violation(key, f"{via}(inds={net.inds}, order={order}, swap={sv}) raised {type(e).__name__}: {e} "
                                f"[order class by GF(2) analysis: {oclass}]", w)
             continue
         accepted += 1
+        if first_accepted is None:
+            first_accepted = order
         ctx.count("ncon_via:" + via)
         ctx.count("ncon_orders_returned:" + oclass)
+        if omit_conjs:
+            ctx.count("ncon_conjs_omitted_calls")
         cm = None
-        if probe is not None:
-            try:
-                cm = analyse_commands(_einsum._meta_ncon(*probe), net, sym, ferm)
-            except Exception:
-                ctx.count("ncon_command_probe_failed")
+        try:
+            cm = analyse_commands(_einsum._meta_ncon(*probe), net, sym, ferm)
+        except Exception:
+            ctx.count("ncon_command_probe_failed")
         if cm:
             for kk, v in cm.items():
                 agg[kk] += v
@@ -1178,9 +1302,35 @@ def ncon_case(ctx, idx, k):
             key = "ncon-swap:pending-swap-at-trace"
         else:
             key = "ncon-swap:" + mech + (":bosonic" if not fermionic else "") + (":" + oclass if oclass != "resolvable" else "")
-        what = f"{via}(inds={net.inds}, conjs={net.conjs}, order={order}, swap={net.swap}) [{sym} fermionic={ferm}; order class {oclass}]"
-        if not compare_net(ctx, key, what, r, expected, net, nexp, tol, dict(base_w, order=order, via=via, order_class=oclass, commands_summary=cm)):
+        what = (f"{via}(inds={net.inds}, conjs={'omitted' if omit_conjs else net.conjs}, order={order}, swap={sv}) "
+                f"[{sym} fermionic={ferm}; order class {oclass}{'; fused ' + net.fuse_mode if net.comp else ''}]")
+        if not compare_net(ctx, key, what, r, expected, net, nexp, tol,
+                           dict(base_w, order=order, via=via, swap_as_passed=sv, order_class=oclass, commands_summary=cm)):
             ctx.count("ncon_orders_mismatch:" + oclass + (":pending-swap-at-trace" if (not unres and "trace" in hard) else ""))
+    # ---- defaults and falsy arguments: no swap given (omitted / [] / () / einsum default) = no signs at all;
+    #      everything left at its default (ascending order, no conjs) when the network allows it
+    defaults = []
+    if first_accepted is not None:
+        defaults += [("swap-omitted", "order", first_accepted, None), ("swap-empty-list", "order", first_accepted, []),
+                     ("swap-empty-tuple", "relabel", first_accepted, ()), ("einsum-swap-omitted", "einsum", first_accepted, None)]
+    defaults.append(("all-defaults", "order", None, None))
+    for name, via, order, sv in defaults:
+        oc = order if order is not None else sorted(net.contracted)
+        ineff = bool(classify_order(net.inds, (), oc)[0])
+        try:
+            r, _ = issue(via, order, sv if sv is not None else [], with_conjs=not (noconj and name in ("all-defaults", "swap-omitted")),
+                         with_swap=sv is not None)
+        except Exception as e:
+            if yerr(e) and "inefficient order" in str(e) and ineff:
+                ctx.count("ncon_default_calls_rejected_inefficient")
+                continue
+            ctx.violation(f"exception:ncon-no-swap:{name}:{type(e).__name__}", f"{name}: {via}(inds={net.inds}, order={order}) without crossings raised "
+                                                                            f"{type(e).__name__}: {e}", dict(base_w, order=order, via=via))
+            continue
+        ctx.count("ncon_default_calls")
+        ctx.count("ncon_default:" + name)
+        compare_net(ctx, "ncon-no-swap:" + name, f"{name}: {via}(inds={net.inds}, conjs={net.conjs}, order={order}) [{sym} fermionic={ferm}]",
+                    r, plain, net, nexp, tol, dict(base_w, order=order, via=via, variant=name))
     reach().end_case(ctx)
     ctx.count("ncon_networks")
     ctx.count("ncon_orders_accepted", accepted)
@@ -1211,7 +1361,40 @@ def ncon_case(ctx, idx, k):
         ctx.count("ncon_lazy_networks")
     if not fermionic:
         ctx.count("ncon_bosonic_networks")
-    sig = ("ncon", sym, repr(ferm), tuple(h.sig() for h in net.hts), tuple(net.inds), tuple(net.conjs), tuple(net.swap), tuple(states))
+    # falsy structure / partial flags / fused operands
+    if not net.open_ids and accepted:
+        ctx.count("ncon_scalar_results")
+        if sensitive:
+            ctx.count("ncon_scalar_results_sign_sensitive")
+    if any(not h.blocks for h in net.hts):
+        ctx.count("ncon_empty_operand_networks")
+    sw_edges = {e for pr in net.swap_edges for e in pr}
+    if any(net.edges[e]["leg"].dim == 1 and odd(sym, net.edges[e]["leg"].ts[0], True) for e in sw_edges):
+        ctx.count("ncon_dim1_odd_crossed_leg_networks")
+    if any(not any(odd(sym, t, True) for t in net.edges[e]["leg"].ts) for e in sw_edges):
+        ctx.count("ncon_even_only_crossed_leg_networks")
+    if fermionic and not all(G.fmask(sym, ferm)) and expected.size and np.max(np.abs(expected - net_oracle(net, sym, True))) > 1e3 * tol:
+        ctx.count("ncon_partial_tuple_discriminating")       # reading the bosonic component as fermionic would change the value
+    if noconj:
+        ctx.count("ncon_no_conj_networks")
+    if net.comp:
+        ctx.count("ncon_fused_networks")
+        ctx.count("ncon_fused:" + net.fuse_mode)
+        if accepted:
+            ctx.count("ncon_fused_networks_decided")
+        if sw_edges & set(net.comp):
+            ctx.count("ncon_fused_crossed_leg_networks")
+            if accepted and sensitive:
+                ctx.count("ncon_fused_crossed_leg_decided")
+        if any(e in net.comp for e in net.open_ids):
+            ctx.count("ncon_fused_open_leg_networks")
+        fm = G.fmask(sym, ferm if fermionic else True)
+        if any(len({odd(sym, t, fm) for x in (e, c_) for t in net.edges[x]["leg"].ts}) == 2 for e, c_ in net.comp.items()):
+            ctx.count("ncon_fused_mixed_parity_constituents")
+        if any(st == "lazy" and net.groups[t] is not None for t, st in enumerate(states)):
+            ctx.count("ncon_fused_on_lazy_operand")
+    sig = ("ncon", sym, repr(ferm), tuple(h.sig() for h in net.hts), tuple(net.inds), tuple(net.conjs), tuple(net.swap), tuple(states),
+           net.fuse_mode, repr(net.groups))
     ctx.case(sig, nonzero and accepted > 0,
              dict(base_w, orders_accepted=accepted, commands=agg) if idx % 89 == 1 else None)
 
